@@ -14,7 +14,7 @@ import (
 // long a broken server can stall the check; no verdict depends on how fast an
 // answer arrives.
 
-var udpWaits = []time.Duration{2 * time.Second, 4 * time.Second, 8 * time.Second, 16 * time.Second}
+var udpWaits = []time.Duration{2 * time.Second, 4 * time.Second, 8 * time.Second}
 
 // shortWaits is used for messages the server is allowed to ignore.
 var shortWaits = []time.Duration{1 * time.Second, 2 * time.Second}
